@@ -1226,59 +1226,50 @@ func (c *control) dirR(colon, at bool, params []any) {
 			}
 			return
 		}
-		one := cardinalOne
-		teen := cardinalTeen
-		if colon {
-			// prints arg as an ordinal English number: fourth.
-			one = ordinalOne
-			teen = ordinalTeen
-		}
+		// The words are collected from the least significant triple up and
+		// written in reverse order.
 		i := len(digits) - 1
 		for _, trip := range cardinalTriples {
-			if 0 < len(trip) {
-				words = append(words, trip)
-			}
-			zero := true
+			var d10, d100 byte = '0', '0'
 			d := digits[i]
 			i--
-			if i < 0 {
-				words = append(words, one[d-'0'])
-				break
-			}
-			d10 := digits[i]
-			i--
-			switch d10 {
-			case '0':
-				if d != '0' {
-					zero = false
-					words = append(words, one[d-'0'])
-				}
-			case '1':
-				zero = false
-				words = append(words, teen[d-'0'])
-			default:
-				zero = false
-				words = append(words, one[d-'0'])
-				words = append(words, cardinalTen[d10-'0'-2])
-			}
-			one = cardinalOne
-			teen = cardinalTeen
 			if 0 <= i {
-				d := digits[i]
+				d10 = digits[i]
 				i--
-				if d != '0' {
-					zero = false
-					words = append(words, "hundred")
-					words = append(words, one[d-'0'])
-				}
 			}
-			if zero && 0 < len(trip) {
-				// Remove the word pushed for this all zero triple.
-				words = words[:len(words)-1]
+			if 0 <= i {
+				d100 = digits[i]
+				i--
+			}
+			if d != '0' || d10 != '0' || d100 != '0' {
+				if 0 < len(trip) {
+					words = append(words, trip)
+				}
+				if d10 == '1' {
+					words = append(words, cardinalTeen[d-'0'])
+				} else {
+					if d != '0' {
+						words = append(words, cardinalOne[d-'0'])
+					}
+					if d10 != '0' {
+						words = append(words, cardinalTen[d10-'0'-2])
+					}
+				}
+				if d100 != '0' {
+					words = append(words, "hundred", cardinalOne[d100-'0'])
+				}
 			}
 			if i < 0 {
 				break
 			}
+		}
+		if 0 <= i {
+			slip.ErrorPanic(c.scope, 0, "number too large to print using the Radix directive at %d of %q", c.pos, c.str)
+		}
+		if colon {
+			// prints arg as an ordinal English number: fourth. Only the last
+			// word, which is the first collected, takes the ordinal form.
+			words[0] = ordinalWord(words[0])
 		}
 		if neg {
 			words = append(words, "negative")
@@ -1291,6 +1282,25 @@ func (c *control) dirR(colon, at bool, params []any) {
 			c.out = append(c.out, sep...)
 		}
 	}
+}
+
+// ordinalWord returns the ordinal form of an English cardinal word such as
+// fourth for four, twentieth for twenty, and hundredth for hundred.
+func ordinalWord(word string) string {
+	for i, w := range cardinalOne {
+		if w == word {
+			return ordinalOne[i]
+		}
+	}
+	for i, w := range cardinalTeen {
+		if w == word {
+			return ordinalTeen[i]
+		}
+	}
+	if word[len(word)-1] == 'y' {
+		return word[:len(word)-1] + "ieth"
+	}
+	return word + "th"
 }
 
 func (c *control) dirS(colon, at bool, params []any) {
